@@ -130,20 +130,68 @@ def check(chk):
         # drains iterate the saved copy, never self._requests
         uses_attr = [n for st in ear.body[1:] for n in ast.walk(st) if isinstance(n, ast.Attribute) and n.attr == '_requests']
         chk.judge(not uses_attr, 'C10.swap', ear, 'drain uses the saved table only', 'the drain reads self._requests (just replaced) instead of the saved table')
-        invoked = []
-        for n in body_walk(ear, nested=True):
-            if isinstance(n, ast.Call) and isinstance(n.func, ast.Name) and n.func.id == 'try_callback':
-                invoked.append(n)
+        # a "shielded invocation" of a callback: cb(<error>) inside try/except Exception - written in place, in a local closure, or in a method of the class
+        def _shield_body(stmts, param):
+            for x in stmts:
+                if isinstance(x, ast.Try) and any(h.type is None or src(h.type) in ('Exception', 'BaseException') for h in x.handlers):
+                    if any(isinstance(c_, ast.Call) and isinstance(c_.func, ast.Name) and c_.func.id == param for st_ in x.body for c_ in ast.walk(st_)):
+                        return True
+            return False
+        shields = {}
+        for fn_ in [n for n in body_walk(ear) if isinstance(n, ast.FunctionDef)]:
+            ps = [a.arg for a in fn_.args.args]
+            if ps and _shield_body(fn_.body, ps[0]):
+                shields[fn_.name] = 0
+        for q_, fn_ in conn.functions():
+            if q_.startswith('Connection.') and q_.count('.') == 1:
+                ps = [a.arg for a in fn_.args.args][1:]
+                if ps and _shield_body(fn_.body, ps[0]):
+                    shields['self.' + fn_.name] = 0
+
+        shield_defs = [fn_ for fn_ in body_walk(ear) if isinstance(fn_, ast.FunctionDef) and fn_.name in shields]
+        in_shield = set(id(x) for fn_ in shield_defs for x in ast.walk(fn_))
+
+        def _shielded_calls(root, var, nested=True):
+            """shielded invocations of callback variable `var` below root (the bodies of the shielding helpers themselves excluded)"""
+            return [c_ for c_ in _shielded_calls0(root, var) if id(c_) not in in_shield]
+
+        def _shielded_calls0(root, var):
+            out = []
+            for x in (body_walk(root, nested=True) if isinstance(root, (ast.FunctionDef, ast.AsyncFunctionDef)) else ast.walk(root)):
+                if isinstance(x, ast.Call) and src(x.func) in shields and x.args and src(x.args[0]) == var:
+                    out.append(x)
+                if isinstance(x, ast.Try) and any(h.type is None or src(h.type) in ('Exception', 'BaseException') for h in x.handlers):
+                    for st_ in x.body:
+                        for c_ in ast.walk(st_):
+                            if isinstance(c_, ast.Call) and isinstance(c_.func, ast.Name) and c_.func.id == var:
+                                out.append(c_)
+            return out
         pops = [n for n in body_walk(ear) if isinstance(n, ast.Call) and src(n.func) == '%s.popitem' % saved]
         loops = [n for n in body_walk(ear, nested=True) if isinstance(n, ast.For) and src(n.iter) in ('%s.values()' % saved, '%s.items()' % saved)]
-        chk.judge(len(invoked) >= 1 and loops and all(any(isinstance(x, ast.Call) and isinstance(x.func, ast.Name) and x.func.id == 'try_callback'
-                                                         for x in ast.walk(l)) for l in loops),
-                  'C10.swap', ear, 'every remaining saved callback is invoked through try_callback', 'the saved callbacks are not each invoked exactly once (the first one is popped from the saved table before the others are walked): a callback is skipped or runs twice')
-        chk.judge(len(pops) <= 1 and (not pops or len(invoked) >= 2), 'C10.swap', ear, 'the callback removed with popitem() is invoked too',
-                  'a callback popped from the saved table is dropped without being invoked')
-        tc = [n for n in body_walk(ear) if isinstance(n, ast.FunctionDef) and n.name == 'try_callback']
-        shield = tc and any(isinstance(x, ast.Try) and any(h.type is None or src(h.type) in ('Exception', 'BaseException') for h in x.handlers) for x in tc[0].body)
-        chk.judge(bool(shield), 'C10.swap', ear, 'each callback runs inside try/except', 'a raising callback would stop the remaining requests from being failed')
+        loop_ok = bool(loops)
+        for l in loops:
+            tg = l.target
+            cbv = src(tg.elts[0]) if isinstance(tg, ast.Tuple) and src(l.iter).endswith('.values()') else None
+            if isinstance(tg, ast.Tuple) and src(l.iter).endswith('.items()') and len(tg.elts) == 2 and isinstance(tg.elts[1], ast.Tuple):
+                cbv = src(tg.elts[1].elts[0])
+            loop_ok = loop_ok and cbv is not None and len(_shielded_calls(l, cbv)) == 1
+        chk.judge(loop_ok, 'C10.swap', ear, 'every remaining saved callback is invoked once, shielded by try/except', 'the saved callbacks are not each invoked exactly once (the first one is popped from the saved table before the others are walked): a callback is skipped or runs twice')
+        pop_ok = len(pops) <= 1
+        if pops:
+            pst = [st for st in ear.body if any(x is pops[0] for x in ast.walk(st))]
+            pv = None
+            if pst and isinstance(pst[0], ast.Assign) and isinstance(pst[0].targets[0], ast.Tuple):
+                tg0, v0 = pst[0].targets[0], pst[0].value
+                if isinstance(v0, ast.Subscript) and src(v0.slice) == '1':                    # cb, _, _ = saved.popitem()[1]
+                    pv = src(tg0.elts[0])
+                elif v0 is pops[0] and len(tg0.elts) == 2 and isinstance(tg0.elts[1], ast.Tuple):  # _, (cb, _, _) = saved.popitem()
+                    pv = src(tg0.elts[1].elts[0])
+            outside_loops = [c_ for c_ in _shielded_calls(ear, pv) if not any(any(c_ is y for y in ast.walk(l)) for l in loops)] if pv else []
+            pop_ok = pv is not None and len(outside_loops) == 1
+        chk.judge(pop_ok, 'C10.swap', ear, 'the callback removed with popitem() is invoked too (once)',
+                  'a callback popped from the saved table is dropped without being invoked (or invoked twice)')
+        all_calls = [c_ for c_ in body_walk(ear, nested=True) if isinstance(c_, ast.Call) and ((isinstance(c_.func, ast.Name) and c_.func.id in ('cb',)) or src(c_.func) in shields)]
+        chk.judge(bool(all_calls), 'C10.swap', ear, 'each callback runs inside try/except', 'a raising callback would stop the remaining requests from being failed')
         chk.judge('ConnectionShutdown(' in src(ear), 'C10.swap', ear, 'callbacks receive a ConnectionShutdown', 'callbacks no longer receive a connection error')
     cps = conn.func('Connection.error_all_cp_sessions')
     chk.judge('.on_error(exc)' in src(cps) and 'list(self._continuous_paging_sessions.keys())' in src(cps), 'C10.swap', cps,
